@@ -142,7 +142,8 @@ func (h *connectHandler) NewConn(
 		// since the streaming envelope lets us choose whether to compress each
 		// message individually. For unary, we won't know whether we're compressing
 		// the request until we see how large the payload is.
-		if responseCompression != compressionIdentity {
+		// (Negotiation leaves it empty when it fails: no header then.)
+		if responseCompression != "" && responseCompression != compressionIdentity {
 			header[connectStreamingHeaderCompression] = []string{responseCompression}
 		}
 	}
